@@ -42,6 +42,10 @@ class C15(PropBase):
         orders = [""] + list(alpha) + ["".join(p) for p in itertools.product(alpha, repeat=2)]
         if tier == "quick":
             orders = [""] + list(alpha) + rng.sample(orders[16:], 40)
+        # every letter and digit that is not a key, alone and in groups (in particular the other case of each key letter)
+        import string
+        others = [c for c in string.ascii_letters + string.digits if c not in "saAvVNSWEdDcC"]
+        orders += others + ["".join(rng.sample(others, 3)) for _ in range(6)] + ["nwe", "nsew"]
         ntab = 3 if tier == "quick" else 12
         for ti in range(ntab):
             addrs, pre, body = self.table(rng)
